@@ -358,6 +358,30 @@ async def end_to_end(ctx: Ctx, trials: int) -> None:
                                   {"log_tail": [x[27:] for x in lines[-8:]], "deleted": str(m._pkt), "entity": str(e), "codes_lost": lost}, "history")
                 DELETE_CASES.append(([(int(c, 16), id(x) % 10**9) for c, x in b.items()], (int(m.code, 16), id(m) % 10**9),
                                      sorted((int(c, 16), id(x) % 10**9) for c, x in e._msgs_.items())))
+        # ... and a STALE deletion: the message has been superseded (same frame again, later) before its deferred deletion runs -- the newer one stays
+        held = [m for e in ents for m in e._msgs_.values() if m.verb in (" I", "RP")]
+        for m in rng.sample(held, min(2, len(held))):
+            t_new = g._dt_now() + td(seconds=1)
+            g._transport._frame_read(t_new.isoformat(timespec="microseconds"), f"{m._pkt._rssi} {m._pkt._frame}")
+            for _ in range(6):
+                await asyncio.sleep(0)
+            newer = [(e, x) for e in ents for x in e._msgs_.values() if x is not m and x.dtm == t_new]
+            if not newer:
+                continue          # the repeated frame was not stored (filtered): nothing superseded
+            ctx.case(("stale-delete", trial, str(m._pkt)), True, "delete-superseded-message")
+            before = [dict(e._msgs_) for e in ents]
+            ents[-1]._delete_msg(m)
+            for e, b in zip(ents, before):       # also a case of the model's sdel: deleting a message that is not (any longer) held changes nothing
+                DELETE_CASES.append(([(int(c, 16), id(x) % 10**9) for c, x in b.items()], (int(m.code, 16), id(m) % 10**9),
+                                     sorted((int(c, 16), id(x) % 10**9) for c, x in e._msgs_.items())))
+            for e, x in newer:
+                if e._msgs_.get(x.code) is not x:
+                    ctx.violation("stale-delete-removes-the-newer-message", "the deferred deletion of a superseded message removed the newer message that holds its place",
+                                  {"log_tail": [y[27:] for y in lines[-4:]], "superseded": str(m._pkt), "entity": str(e)}, "history")
+            src = m.src
+            if hasattr(src, "_msg_db") and not any(y.dtm == t_new and y.code == m.code for y in src._msg_db):
+                ctx.violation("stale-delete-removes-the-newer-message", "the deferred deletion of a superseded message removed the newer message from the sender's message index (the snapshot's source)",
+                              {"log_tail": [y[27:] for y in lines[-4:]], "superseded": str(m._pkt), "entity": str(src)}, "history")
         await g.stop()
 
 
